@@ -54,7 +54,8 @@ CONSTANTS Slots,      \* guard slots (number of simultaneously live guards)
           W0B,        \* wall clock of source B at clockB = 0
           Ambients,   \* ambient overrides the environment may install: subset of {"A", "B", "none"}
           Threads,    \* subset of {"main", "other"}
-          Resolution  \* "captured" (the code) | "ambient_first" (negative model)
+          Resolution, \* "captured" (the code) | "ambient_first" (negative model)
+          UnwindDrops \* BOOLEAN: guards are also dropped by panics unwinding through their scope
 
 None == -1
 
@@ -176,6 +177,10 @@ DropGuard(s) ==
     /\ pAny' = TRUE /\ pSum' = pSum + Span(s)
     /\ UNCHANGED <<clock, repr, tmvars, envvars>>
 
+\* The guard's scope is left by a panic (caught further up): Drop runs during the unwinding and must do
+\* exactly what it does otherwise - the span was completed and was not discarded.
+DropUnwind(s) == UnwindDrops /\ DropGuard(s)
+
 \* guard.overwrite(): timer.take(), then Drop adds the guard's own span
 Overwrite(s) ==
     /\ Live(s)
@@ -211,7 +216,7 @@ SwNext ==
     \/ \E d \in Ds : Advance(d) \/ AdvanceB(d)
     \/ \E a \in Ambients, t \in Threads : SetAmbient(a, t)
     \/ Start \/ StartOwned \/ Clear
-    \/ \E s \in Slots : Stop(s) \/ DropGuard(s) \/ Overwrite(s) \/ Discard(s)
+    \/ \E s \in Slots : Stop(s) \/ DropGuard(s) \/ DropUnwind(s) \/ Overwrite(s) \/ Discard(s)
 
 SwSpec == Init /\ [][SwNext]_vars
 
